@@ -2,7 +2,10 @@
 
     Statements only; proofs in [Farm/Rewards.v] (on top of the invariant of [Farm/Proofs.v]).
     [reachable s] as in C05: any history from any genesis with an empty farm account. *)
-From Irismod Require Import Farm.Model Farm.Check Farm.Proofs Farm.Rewards Farm.Refund Farm.Budget Farm.Sound Farm.History Farm.Sound6 Farm.ProRata Farm.SoundTrace.
+From Irismod Require Import Farm.Model Farm.Check Farm.Proofs Farm.Rewards Farm.Refund Farm.Budget Farm.Sound Farm.History Farm.Sound6 Farm.ProRata Farm.SoundTrace Farm.FairFold Farm.FairModel Farm.FairRef Farm.Params.
+From Coq Require Import QArith.
+Close Scope Q_scope.
+Open Scope Z_scope.
 
 (** RELEASE.  Every successful updatePool (each of stake, unstake, harvest, adjust, destroy and the
     end blocker goes through it), at any height, on any pool and ledger: the reward released for a
@@ -217,22 +220,159 @@ Qed.
     schedule) returns 0 on the MODEL's own observations at every step of every history. *)
 Theorem c06_checker_predicate_holds_on_the_model :
   forall (s : state) (st : step) (oc0 : outcome) (rw0 : list (denom * Z)),
-    reachable s -> valid_step st -> (match st with Msg m => In (sender m) actors | NextBlock => True end) ->
-    c06_step (height s) (obs_of s oc0 rw0) st (obs_after s st) = 0.
+    reachable s -> valid_step st -> actor_step st ->
+    c06_step (height s) (cfee s) (obs_of s oc0 rw0) st (obs_after s st) = 0.
 Proof. intros s st oc0 rw0 R. exact (model_passes_c06 s st oc0 rw0 (reachable_inv _ R)). Qed.
 Print Assumptions c06_checker_predicate_holds_on_the_model.
 
-(** MODEL PASSES CHECK for C06: on the trace the model itself produces for any history, [check_case_C06] reports no
-    divergence and none of the clauses 10-17; the only other possible answer is clause 18 (the fair-share fold in exact
-    rationals), whose content is proved separately in units of 10^-18 ([payout_close_to_fair_share_on_histories]). *)
+(** MODEL PASSES CHECK for C06: on the trace the model itself produces for any history, [check_case_C06] answers
+    exactly (-1, -1, 0): no divergence, none of the clauses 10-17, and the exact-rational fair-share fold of clause 18
+    ([fair_step] / [fair_close] / [fair_ok] over [Q]) is satisfied.  ([FairFold.v]: what the checker's nested folds do
+    to one key; [FairModel.v]: every key of the checker's map follows the pro-rata abstraction of that farmer and rule
+    ([ProRata.sim_step]) with [fair / 10^18 <= sh_fair <= (fair + eps) / 10^18], and the bounds of [finv] give [share_ok].) *)
 Theorem model_passes_check_C06 :
   forall (h0 : Z) (bl : list (acct * list Z)) (steps : list step),
     genesis_ok (ledger_of bl) h0 -> bals_of (ledger_of bl) = bl ->
     Forall valid_step steps -> Forall actor_step steps ->
-    let c := model_case h0 bl steps [] in
-    check_case_C06 c = (-1, -1, 0) \/ check_case_C06 c = (-1, n_steps c, 18).
-Proof. exact model_passes_check_C06_lemma. Qed.
+    check_case_C06 (model_case h0 bl steps []) = (-1, -1, 0).
+Proof. exact model_passes_check_C06_exact_lemma. Qed.
 Print Assumptions model_passes_check_C06.
+
+(** the fold of clause 18 alone, for any state of the checker's loop that satisfies the per-key invariant *)
+Theorem fair_share_fold_holds_on_the_model :
+  forall (s : state) (last : obs) (m : shares),
+    inv s -> (forall k, key_ok s m k) -> nd m -> o_pools last = pools s -> fair_ok (fair_close last m) = true.
+Proof. exact fair_ok_model. Qed.
+Print Assumptions fair_share_fold_holds_on_the_model.
+
+(** BLOCK-BY-BLOCK REFERENCE (clause 19).  [ref_hist]: at the start of every block each running, staked pool hands the
+    block's reward to the recorded farmers in proportion to the stakes they hold at that moment (the harness'
+    independent [accrueBlock]); [model_shares]: the share map the checker folds ([fair_step]), as a function of the model
+    history; [pending]: what a recorded farmer has earned since the pool's last settlement.  Because the model settles a
+    pool before every change of its stakes, over one step "credited at settlement moments + pending" grows by exactly the
+    reference of that step, for every key and every share value the fold may hold. *)
+Theorem reference_step :
+  forall (s : state) (st : step) (oc0 : outcome) (rw0 : list (denom * Z)) (k : key) (sh : share),
+    inv s -> valid_step st ->
+    (sh_fair (step_spec (obs_of s oc0 rw0) st (obs_after s st) k sh) + pending (step_state s st) k
+     == sh_fair sh + pending s k + ref_step s st k)%Q.
+Proof. exact ref_step_lemma. Qed.
+Print Assumptions reference_step.
+
+(** the checker's map on a model trace is [model_shares] of the history *)
+Theorem checker_share_map_is_model_shares :
+  forall (steps : list step) (s : state) (a : obs) (i : Z) (x : acc),
+    a_sh (fst (check_from s a (model_trace s steps) i x)) = model_shares s a steps (a_sh x).
+Proof. exact check_from_shares. Qed.
+Print Assumptions checker_share_map_is_model_shares.
+
+(** over every history from genesis the block-by-block reference IS the share credited at the settlement moments
+    plus what is still pending; the latter is 0 for a farmer who has withdrawn, for a pool settled at the current
+    height, and for a pool that has stopped ([pending_absent], [pending_settled], [pending_stopped]) *)
+Theorem block_by_block_reference_is_settlement_share :
+  forall (b : ledger) (h : Z) (steps : list step) (k : key),
+    genesis_ok b h -> Forall valid_step steps ->
+    (ref_hist (init b h) steps k
+     == sh_fair (sh_get (model_shares (init b h) (obs_of (init b h) Ok []) steps []) k) + pending (run (init b h) steps) k)%Q.
+Proof. exact reference_is_settlement_share_lemma. Qed.
+Print Assumptions block_by_block_reference_is_settlement_share.
+
+Theorem nothing_pending_after_withdrawal :
+  forall (s : state) (w pid d : Z) (p : pool),
+    get pid (pools s) = Some p -> get w (p_farmers p) = None -> pending s (w, pid, d) = 0%Q.
+Proof. exact pending_absent. Qed.
+Print Assumptions nothing_pending_after_withdrawal.
+
+(** MODEL PASSES CHECK for C06 with the reference rows: if every row of [c_fair] carries the block-by-block reference of
+    its key and nothing is pending for it at the end (the harness ends with a full withdrawal), [check_case_C06] answers
+    exactly (-1, -1, 0): the rows agree with the folded shares ([fair_ref_ok], no divergence) and clause 19
+    ([fair_ref_share_ok]: payouts within the bound of the REFERENCE share) holds as well as clauses 10-18. *)
+Theorem model_passes_check_C06_with_reference :
+  forall (h0 : Z) (bl : list (acct * list Z)) (steps : list step) (ref : list (Z * Z * Z * Z * Z)),
+    genesis_ok (ledger_of bl) h0 -> bals_of (ledger_of bl) = bl ->
+    Forall valid_step steps -> Forall actor_step steps ->
+    Forall (ref_row_ok (init (ledger_of bl) h0) steps) ref ->
+    check_case_C06 (model_case h0 bl steps ref) = (-1, -1, 0).
+Proof. exact model_passes_check_C06_ref_lemma. Qed.
+Print Assumptions model_passes_check_C06_with_reference.
+
+(** non-vacuity: farmer 1 stakes 2, farmer 2 joins with 1 for two blocks, harvests and leaves: the references are 10/3
+    and 2/3, the rows satisfy [ref_row_ok], the case passes; a wrong reference row is reported (divergence and clause 19) *)
+Example c06_reference_nonvacuous :
+  let bl := [(0, [1000000; 1000000; 1000000; 1000000]); (1, [1000; 1000; 1000; 1000]); (2, [5; 0; 7; 1000]); (3, [0; 0; 0; 0]);
+             (FARM, [0; 0; 0; 0]); (COLL, [0; 0; 0; 0]); (FEEC, [0; 0; 0; 9]); (BURN, [0; 0; 0; 0])] in
+  let hist := [Msg (CreatePool 0 0 2 true [(3, 1000, 1)]); NextBlock; Msg (Stake 1 1 0 2); NextBlock; Msg (Stake 2 1 0 1);
+               NextBlock; Msg (Harvest 2 1); NextBlock; Msg (Unstake 2 1 0 1); NextBlock; Msg (Unstake 1 1 0 2)] in
+  let ref := [(1, 1, 3, 10, 3); (2, 1, 3, 2, 3)] in
+  genesis_ok (ledger_of bl) 2 /\ bals_of (ledger_of bl) = bl /\ Forall valid_step hist /\ Forall actor_step hist
+  /\ Forall (ref_row_ok (init (ledger_of bl) 2) hist) ref
+  /\ Qred (ref_hist (init (ledger_of bl) 2) hist (2, 1, 3)) = Qmake 2 3
+  /\ check_case_C06 (model_case 2 bl hist ref) = (-1, -1, 0)
+  /\ check_case_C06 (model_case 2 bl hist [(2, 1, 3, 5, 1)]) = (11, 11, 19).
+Proof.
+  cbv zeta. split; [apply genesis_ok_by_entries; [lia|vm_compute; reflexivity]|]. split; [vm_compute; reflexivity|].
+  split; [repeat constructor; discriminate|]. split; [repeat (apply Forall_cons; [simpl; tauto|]); apply Forall_nil|].
+  split; [repeat (apply Forall_cons; [split; vm_compute; reflexivity|]); apply Forall_nil|].
+  split; [vm_compute; reflexivity|]. split; vm_compute; reflexivity.
+Qed.
+
+(** PARAMETER CHANGES (MsgUpdateParams) are a step of the model: the state carries the creation fee and the tax rate
+    ([cfee], [trate]; genesis: 5000 and 0.4).  A change is accepted only from the authority and only with valid
+    parameters (fee a valid coin amount of at most 255 bits, 0 < tax < 1) and touches nothing but the two parameters;
+    every other step leaves them alone ([params_after]); all theorems of C05/C06 above are proved with this step in the
+    histories.  The parameters enter only the fee split of CreatePool. *)
+Theorem parameter_change_touches_only_the_parameters :
+  forall (s : state) (who : acct) (cf : Z) (tr : dec) (s' : state) (rw : list (denom * Z)),
+    update_params s who cf tr = Done s' rw ->
+    who = AUTH /\ 0 <= cf < 2 ^ 255 /\ 0 < tr < P18 /\ rw = []
+    /\ s' = mkSt (height s) (pools s) (queue s) (seq s) (bank s) cf tr.
+Proof. exact update_params_Done. Qed.
+Print Assumptions parameter_change_touches_only_the_parameters.
+
+Theorem parameter_change_only_by_the_authority :
+  forall (s : state) (who : acct) (cf : Z) (tr : dec), who <> AUTH -> update_params s who cf tr = Fail Rej.
+Proof. exact params_only_by_authority. Qed.
+Print Assumptions parameter_change_only_by_the_authority.
+
+Theorem parameters_change_only_by_a_parameter_change :
+  forall (s : state) (st : step), inv s -> (cfee (step_state s st), trate (step_state s st)) = params_after s st.
+Proof. exact step_params. Qed.
+Print Assumptions parameters_change_only_by_a_parameter_change.
+
+(** the fee split: the creator pays the fee in force, the fee collector receives fee x tax rate (truncated, between 0
+    and the fee), the rest is burned, the farm account and everybody else are unchanged *)
+Theorem creation_fee_split :
+  forall (cf : Z) (tr : dec) (b : ledger) (who : acct) (b1 : ledger),
+    deduct_fee cf tr b who = Some b1 -> who <> FARM -> who <> FEEC -> who <> BURN ->
+    let tax := dec_truncate_int (dec_mul (dec_of_int cf) tr) in
+    0 <= tax <= cf
+    /\ forall d, bal b1 who d = bal b who d - (if d =? STAKE then cf else 0)
+              /\ bal b1 FEEC d = bal b FEEC d + (if d =? STAKE then tax else 0)
+              /\ bal b1 BURN d = bal b BURN d + (if d =? STAKE then cf - tax else 0)
+              /\ bal b1 FARM d = bal b FARM d
+              /\ forall x, x <> who -> x <> FARM -> x <> FEEC -> x <> BURN -> bal b1 x d = bal b x d.
+Proof. exact deduct_fee_split. Qed.
+Print Assumptions creation_fee_split.
+
+Theorem create_pool_charges_the_parameters_in_force :
+  forall (s : state) (who : acct) (lpt : denom) (start : Z) (ed : bool) (rules : list (denom * Z * Z)) (s' : state) (rw : list (denom * Z)),
+    create_pool s who lpt start ed rules = Done s' rw ->
+    exists b1 b2, deduct_fee (cfee s) (trate s) (bank s) who = Some b1
+                  /\ send_many b1 who FARM (map (fun '(d, t, _) => (d, t)) rules) = Some b2 /\ bank s' = b2
+                  /\ cfee s' = cfee s /\ trate s' = trate s.
+Proof. exact create_uses_current_params. Qed.
+Print Assumptions create_pool_charges_the_parameters_in_force.
+
+(** non-vacuity: the authority sets fee 7 and tax 1/3; the next pool costs its creator 7 (2 to the fee collector,
+    5 burned); a farmer's attempt and an invalid tax rate are rejected and change nothing *)
+Example c06_params_nonvacuous :
+  let bk : ledger := fold_left (fun l a => fold_left (fun l' d => credit l' a d 1000000) [0; 1; 2; 3] l) [0; 1; 2] [] in
+  let s0 := init bk 2 in
+  let s1 := run s0 [Msg (UpdateParams 1 9 500000000000000000); Msg (UpdateParams AUTH 9 P18); Msg (UpdateParams AUTH 7 333333333333333333)] in
+  let s2 := step_state s1 (Msg (CreatePool 0 0 2 true [(3, 1000, 1)])) in
+  (cfee s0, trate s0, cfee s1, trate s1) = (5000, 400000000000000000, 7, 333333333333333333)
+  /\ (bal (bank s1) 0 STAKE - bal (bank s2) 0 STAKE, bal (bank s2) FEEC STAKE, bal (bank s2) BURN STAKE, seq s2) = (1007, 2, 5, 1).
+Proof. cbv zeta. split; vm_compute; reflexivity. Qed.
 
 (** The duration AdjustPool computes (availableHeight) is never negative (imported by the queues group). *)
 Theorem adjust_duration_is_nonnegative :
